@@ -14,7 +14,10 @@
 (*   "D"  final incoming packet; in the play state it is the disconnect     *)
 (*        packet (the reaction flushes and closes), in the login state it   *)
 (*        is login success (the reaction only switches reactor) {Packet, D} *)
-(* A listener is [f |-> set of class names, ig |-> raises IgnorePacket].   *)
+(* A listener is [f |-> set of class names, ig |-> raises IgnorePacket,    *)
+(* dc |-> calls disconnect(immediate=True) on its connection (early        *)
+(* incoming listeners only): the packet at hand still goes through every   *)
+(* later stage - only 'ignore' stops stages - and nothing is read after.   *)
 (* Four lists: early incoming, incoming, early outgoing, outgoing.         *)
 (* The reaction of a packet occurrence takes effect between its early and  *)
 (* its ordinary listeners: every log entry records whether the effect was  *)
@@ -42,8 +45,10 @@ Classes(p) == CASE p = "A" -> {"Packet", "Abs", "A"} [] p = "RA" -> {"Packet", "
                 [] p = "B" -> {"Packet", "B"} [] p = "U" -> {"Packet"} [] p = "D" -> {"Packet", "D"} [] p = "C" -> {"Packet", "C"}
 HasReaction(p) == p \in {"A", "C", "D"}
 
-Listener == [f : Filters, ig : BOOLEAN]
+Listener == [f : Filters, ig : BOOLEAN, dc : {FALSE}]
+EarlyListener == Listener \cup [f : Filters, ig : {FALSE}, dc : {TRUE}]
 Lists(n) == UNION {[1..m -> Listener] : m \in 0..n}
+EarlyLists(n) == UNION {[1..m -> EarlyListener] : m \in 0..n}
 
 Matches(l, p) == l.f \cap Classes(p) # {}
 
@@ -53,13 +58,14 @@ Matches(l, p) == l.f \cap Classes(p) # {}
 \* the fifth component: 1 iff the reaction to this occurrence is already in effect when the listener runs
 RECURSIVE RunFrom(_, _, _, _, _, _)
 RunFrom(L, name, p, occ, i, seen) ==
-  IF i > Len(L) THEN [calls |-> <<>>, ig |-> FALSE]
+  IF i > Len(L) THEN [calls |-> <<>>, ig |-> FALSE, dc |-> FALSE]
   ELSE IF ~Matches(L[i], p) THEN RunFrom(L, name, p, occ, i + 1, seen)
-  ELSE IF L[i].ig THEN [calls |-> <<<<name, i, p, occ, seen>>>>, ig |-> TRUE]
-  ELSE LET r == RunFrom(L, name, p, occ, i + 1, seen) IN [calls |-> <<<<name, i, p, occ, seen>>>> \o r.calls, ig |-> r.ig]
+  ELSE IF L[i].ig THEN [calls |-> <<<<name, i, p, occ, seen>>>>, ig |-> TRUE, dc |-> FALSE]
+  ELSE LET r == RunFrom(L, name, p, occ, i + 1, seen) IN
+       [calls |-> <<<<name, i, p, occ, seen>>>> \o r.calls, ig |-> r.ig, dc |-> (L[i].dc \/ r.dc)]
 RunList(L, name, p, occ) == RunFrom(L, name, p, occ, 1, IF name \in {"EI", "OI"} /\ occ \in reacted THEN 1 ELSE 0)
 
-Init == /\ EI \in Lists(MaxIn) /\ OI \in Lists(MaxIn) /\ EO \in Lists(MaxOut) /\ OO \in Lists(MaxOut)
+Init == /\ EI \in EarlyLists(MaxIn) /\ OI \in Lists(MaxIn) /\ EO \in Lists(MaxOut) /\ OO \in Lists(MaxOut)
         /\ \E h \in Histories : hist = h \o <<"D">>
         /\ batch \in BOOLEAN /\ st \in States /\ forced = TRUE     \* (a run without the final forced write is a prefix of one with it)
         /\ k = 1 /\ stage = "early" /\ queue = <<>> /\ log = <<>> /\ wire = <<>> /\ closed = FALSE /\ ignored = FALSE /\ nw = 0 /\ fdone = FALSE
@@ -73,7 +79,8 @@ Early == /\ stage = "early" /\ k <= Len(hist) /\ ~closed
               /\ log' = log \o r.calls
               /\ IF r.ig THEN stage' = "after" ELSE stage' = "react"       \* IgnorePacket: skip reactor and listeners
               /\ ignored' = r.ig
-         /\ UNCHANGED <<cfgv, k, queue, wire, closed, nw, fdone, reacted, comp>>
+              /\ closed' = (closed \/ r.dc)          \* a listener disconnected: the stages of this packet go on regardless
+         /\ UNCHANGED <<cfgv, k, queue, wire, nw, fdone, reacted, comp>>
 
 \* self.reactor.react(packet)
 ReactStep == /\ stage = "react"
@@ -85,15 +92,15 @@ ReactStep == /\ stage = "react"
 
 \* disconnect(): flush the queue through _write_packet, then close; then the ordinary listeners still run
 Closing == /\ stage = "closing"
-           /\ IF queue # <<>> THEN
+           /\ IF queue # <<>> /\ ~closed THEN
                 LET e == RunList(EO, "EO", "RA", Head(queue)) IN
                 IF e.ig THEN /\ log' = log \o e.calls /\ UNCHANGED wire
                 ELSE LET o == RunList(OO, "OO", "RA", Head(queue)) IN
                      /\ log' = log \o e.calls \o o.calls /\ wire' = Append(wire, Head(queue))
               ELSE UNCHANGED <<log, wire>>
-           /\ queue' = IF queue # <<>> THEN Tail(queue) ELSE queue
-           /\ nw' = IF queue # <<>> THEN nw + 1 ELSE nw
-           /\ IF queue = <<>> \/ Len(queue) = 1 THEN closed' = TRUE /\ stage' = "ordinary"
+           /\ queue' = IF queue # <<>> /\ ~closed THEN Tail(queue) ELSE queue
+           /\ nw' = IF queue # <<>> /\ ~closed THEN nw + 1 ELSE nw
+           /\ IF closed \/ queue = <<>> \/ Len(queue) = 1 THEN closed' = TRUE /\ stage' = "ordinary"
               ELSE UNCHANGED <<closed, stage>>
            /\ UNCHANGED <<cfgv, k, ignored, fdone, reacted, comp>>
 
@@ -170,6 +177,15 @@ ReactionBetweenStages ==
 IgnoredNeverReacts ==
   \A i \in 1..Len(log) :
      (log[i][1] = "EI" /\ EI[log[i][2]].ig) => log[i][4] \notin reacted
+\* only 'ignore' stops stages: after an early listener has disconnected, the ordinary listeners matching that packet still run
+PacketDone(occ) == k > occ \/ (k = occ /\ stage \in {"after", "flush"})
+IgnoredAtEarly(occ) == \E m \in 1..Len(log) : log[m][1] = "EI" /\ log[m][4] = occ /\ EI[log[m][2]].ig
+DisconnectingListenerStopsNothing ==
+  \A i \in 1..Len(log) :
+     (log[i][1] = "EI" /\ EI[log[i][2]].dc /\ PacketDone(log[i][4]) /\ ~IgnoredAtEarly(log[i][4])) =>
+        \A j \in 1..Len(OI) :
+           (Matches(OI[j], log[i][3]) /\ \A j2 \in 1..(j - 1) : ~(Matches(OI[j2], log[i][3]) /\ OI[j2].ig))
+              => \E m \in 1..Len(log) : log[m][1] = "OI" /\ log[m][2] = j /\ log[m][4] = log[i][4]
 Terminates == <>Done
 
 EmitRows == (Emit /\ Done) =>
